@@ -19,6 +19,7 @@ Vocabulary (Lemmas/SessionInCore.lean, SessionInMsg.lean, SessionInHist.lean, Se
 -/
 import AsyncFix.Lemmas.SessionInHist
 import AsyncFix.Lemmas.SessionInGap
+import AsyncFix.Lemmas.SessionInAwaitMsg
 namespace AsyncFix.Props.C04
 open AsyncFix.Session AsyncFix.Generated AsyncFix.Generated.ConnEnum
 
@@ -143,6 +144,43 @@ theorem awaiting_gapcheck_silent (env : Env) (n : Int) (c : Conn) (h : c.state =
     (checkSeqnumGaps env n c).conn = c ∧ (checkSeqnumGaps env n c).eff = [] :=
   ((checkSeqnumGaps_spec env n c).elim).2 (Or.inr h)
 
+/-- While RESENDREQ_AWAITING no inbound frame (any type but a Logon, any number, any flags) makes the
+receiver write a ResendRequest, and afterwards the connection is still RESENDREQ_AWAITING, or
+disconnected, or ACTIVE – the latter only through `_finalize_message` with the watermark reached:
+the watermark was positive, is cleared, and the expected number is now beyond it.
+(`journalWf`: outbound journal rows are as the encoder wrote them – needed only when the frame is
+itself a ResendRequest, whose servicing replays journal rows under their own message type.) -/
+theorem awaiting_no_second_resend (sr : Msg → Bool) (env : Env) (c : Conn) (m : Msg)
+    (h12 : c.state = st_RESENDREQ_AWAITING) (hA : m.mtype ≠ mLogon)
+    (hwf : m.mtype = mResendRequest → journalWf c) :
+    (∀ f, Effect.write f ∈ (recv sr env c m).2 → f.mtype ≠ mResendRequest) ∧
+    ((recv sr env c m).1.state = st_RESENDREQ_AWAITING ∨
+     (recv sr env c m).1.state ≤ st_DISCONNECTED_BROKEN_CONN ∨
+     ((recv sr env c m).1.state = st_ACTIVE ∧ (recv sr env c m).1.maxResend = 0 ∧
+       0 < c.maxResend ∧ c.maxResend ≤ (recv sr env c m).1.sess.nextIn - 1)) := by
+  have := (processMessage_aw12 env sr m c h12 hA hwf).elim
+  unfold recv M.run
+  rcases hp : processMessage env sr m c with ⟨r, c1, e1⟩
+  rw [hp] at this
+  obtain ⟨hn, hs⟩ := this
+  cases r with
+  | ok a => exact ⟨hn, hs⟩
+  | error ex =>
+    refine ⟨fun f hf => ?_, hs⟩
+    rcases List.mem_append.1 hf with h | h
+    · exact hn f h
+    · simp at h
+
+/-- RESENDREQ_AWAITING is left for ACTIVE exactly when `_finalize_message` sees a (positive) number
+that has reached the (positive) watermark; `acceptedNum` is the number it sees: the frame's MsgSeqNum
+when that is the expected one, NewSeqNo − 1 for a SequenceReset.  Otherwise the state stays. -/
+theorem awaiting_left_exactly (env : Env) (c : Conn) (m : Msg) (h12 : c.state = st_RESENDREQ_AWAITING) :
+    ((finalizeMessage env m c).conn.state = st_ACTIVE ↔
+      ∃ k, acceptedNum c m = some k ∧ 0 < k ∧ c.maxResend ≤ k ∧ 0 < c.maxResend) ∧
+    ((finalizeMessage env m c).conn.state = st_ACTIVE ∨
+     (finalizeMessage env m c).conn.state = st_RESENDREQ_AWAITING) :=
+  (finalizeMessage_awaiting env m c h12).elim
+
 /-! ## 4. histories -/
 
 /-- Full statement: along EVERY history of events (frames from an arbitrary peer interleaved with
@@ -220,6 +258,10 @@ example : (run all active [.recv env0 (app "7"), .recv env0 (app "5"), .recv env
     = st_RESENDREQ_AWAITING := by decide +kernel
 example : (run all active [.recv env0 (app "7"), .recv env0 (app "5"), .recv env0 (app "6"),
     .recv env0 (app "7")]).1.state = st_ACTIVE := by decide +kernel
+-- the journal rows of the witness states are well-formed (vacuously here; the harness states carry encoder-made rows)
+example : journalWf active := by intro p hp; cases hp
+example : acceptedNum { active with state := st_RESENDREQ_AWAITING, maxResend := 5 } (app "5") = some 5 := by
+  decide +kernel
 -- 4: a history with a gap, a PossDup duplicate, a forward reset: hypothesis holds, numbers 5 6 7 20 delivered
 def hist : List Event :=
   [.recv env0 (app "7"), .recv env0 (app "5"), .recv env0 (dup "5"), .recv env0 (app "6"), .tick env0,
